@@ -3,7 +3,7 @@ From Coq Require Import List String.
 From VQ.Gen Require Import p_expire.
 Import ListNotations.
 Open Scope string_scope.
-Lemma pin_p_expire : p_expire =
+Definition pinned_p_expire : list string :=
   ["EuclideanCodebook.replace:sampled = self.replace_sample_fn(rearrange(samples, '... -> 1 ...'), mask.sum().item())";
    "EuclideanCodebook.replace:sampled = rearrange(sampled, '1 ... -> ...')";
    "EuclideanCodebook.replace:self.embed.data[ind][mask] = sampled";
@@ -32,4 +32,5 @@ Lemma pin_p_expire : p_expire =
    "vq.expire:self._codebook.expire_codes_(x)";
    "rvq.shared_expire:shared_layer.expire_codes_(torch.cat(all_residuals, dim=-2))";
    "rvq.all_residuals:all_residuals.append(residual)"].
+Lemma pin_p_expire : p_expire = pinned_p_expire.
 Proof. reflexivity. Qed.
